@@ -99,6 +99,8 @@ ALLOWED_SITES = {
     # as a tolerance (translations are covariant within it); flips along the TEMPERATURE axis
     ("freeEnergy.py", "tracePhase"): {
         "phase0Temp[0]", "max(*abs(phase0), T0)", "abs(phase0)", "phaset[0]",
+        # kwargs is tainted only through atol=tolAbsolute; this limits the first TEMPERATURE step
+        "min(kwargs['first_step'], abs(TEnd - T0))",
         "np.flip(fieldList, axis=0)", "np.flip(potentialEffList, axis=0)"},
     # component 0 of wallProfile's (fields, dPhidz) (checked by gen_action)
     ("equationOfMotion.py", "action"): {
